@@ -322,6 +322,19 @@ def classify(ctx, tie, mm):
             'why': why, 'sanitizer_report': mm.get('sanitizer_report')}
 
 
+class SearchCouldNotRun(Exception):
+    pass
+
+
+def _infra_failure(out, rc):
+    """A search harness that could not run at all (sanitizer runtime cannot reserve its shadow memory, killed by the OOM
+    killer / a signal before producing its summary) is a failure of the check's environment, not a failing input of the
+    property: report it as such (the check still fails, as `witness search crashed`) instead of as a witness."""
+    if 'ReserveShadowMemoryRange failed' in out or 'AddressSanitizer failed to allocate' in out or \
+            (rc < 0 and '# search cases=' not in out):
+        raise SearchCouldNotRun('search harness could not run (exit %d): %s' % (rc, out[-600:]))
+
+
 def search(ctx):
     """Property predicates evaluated on the implementation only (harness mode `search`)."""
     h = ctx.harness('c18_silkparams', ['c18_silkparams.c'], variant='san')
@@ -341,6 +354,7 @@ def search(ctx):
         if line.startswith('# ordered-NLSF2A'):
             extra.append(line[2:])
     if rc != 0 and not wit:
+        _infra_failure(out, rc)
         tail = [l for l in out.split('\n') if 'runtime error' in l or 'ERROR: AddressSanitizer' in l or l.startswith('SUMMARY')]
         wit.append({'suite': 'silkparams-search', 'input': 'search %d %d' % (ctx.seed, n),
                     'expected': 'dequantisers run without sanitizer report / abort',
@@ -364,6 +378,7 @@ def search(ctx):
                 extra.append(line[2:])
         cases += c2
         if rc2 != 0 and not any(w['suite'] == 'silkparams-search-pitchenc' for w in wit):
+            _infra_failure(out2, rc2)
             tail = [l for l in out2.split('\n') if 'runtime error' in l or 'ERROR: AddressSanitizer' in l or l.startswith('SUMMARY')]
             wit.append({'suite': 'silkparams-search-pitchenc', 'input': 'enc %d %d' % (ctx.seed, n2),
                         'expected': 'encoder and decoder run without sanitizer report / abort',
